@@ -499,6 +499,30 @@ def clash_contact(rng, tmpl_a, tmpl_b, dist, names=None):
     return st, (a.name, b.name)
 
 
+def with_alt_conformers(st, rng):
+    """one residue carries both conformers of a few atoms: the same atom names twice, 0.3-0.8 A apart, occupancies 0.6 /
+    0.4 (what a caller gets who builds residues from a file with alternate locations without choosing one)"""
+    rs = list(st.residues)
+    cand = [i for i, r in enumerate(rs) if len(r.atoms) >= 3]
+    if not cand:
+        return None
+    i = rng.choice(cand)
+    r = rs[i]
+    picked = set(rng.sample(range(len(r.atoms)), min(3, len(r.atoms))))
+    atoms = []
+    for k, a in enumerate(r.atoms):
+        if k in picked:
+            d = [rng.uniform(-1, 1) for _ in range(3)]
+            n = math.sqrt(sum(x * x for x in d)) or 1.0
+            h = rng.uniform(0.3, 0.8)
+            atoms.append(dataclasses.replace(a, occupancy=0.6))
+            atoms.append(dataclasses.replace(a, x=a.x + h * d[0] / n, y=a.y + h * d[1] / n, z=a.z + h * d[2] / n, occupancy=0.4))
+        else:
+            atoms.append(a)
+    rs[i] = mk_residue(r, atoms)
+    return mk_structure(rs)
+
+
 def clash_coincident(rng):
     """two residues with one typed atom of each on bit-identical coordinates (distance exactly 0: superposed copies,
     a ligand modelled onto an atom) - the strongest clash there is"""
